@@ -582,8 +582,12 @@ def core_configs(tier):
                 if tier != 'quick' and ab != '00000' and not (fl in ('En', 'Et') and (N, M) in ((0, 3), (3, 1), (1, 3), (3, 3))):
                     continue
                 cfgs.append(Config(fl, N, M, ab))
+    # some configurations are built as C++20: the arms under `#ifdef GCH_LIB_IS_CONSTANT_EVALUATED` (and the concepts) are only
+    # compiled there, and a run-time-live one (shrink_to_size's catch block) would otherwise be seen by C17's runs alone
     if tier == 'quick':
-        cfgs += [Config('Et', 3, 1, '11100'), Config('En', 1, 3, '01000'), Config('En', 0, 3, '10001'), Config('Et', 1, 3, '00010')]
+        cfgs += [Config('Et', 3, 1, '11100', std='c++20'), Config('En', 1, 3, '01000'), Config('En', 0, 3, '10001'), Config('Et', 1, 3, '00010')]
+    else:
+        cfgs += [Config('Et', 3, 1, '00000', std='c++20'), Config('En', 1, 3, '00000', std='c++20'), Config('Tr', 0, 3, '00000', std='c++20')]
     return cfgs
 
 
